@@ -33,44 +33,69 @@ def check(repo, res, tier):
     X.check_checkjump(repo, res)
     n = X.check_walks(repo, res)
     res.floor("walk scenarios interpreted", n, 15)
-    # the limits handed to the steppers are the declared ones
+    # the limits handed to the steppers are the declared ones: _add_list_attr_with_limits interpreted on every declaration form
+    _check_defaults(repo, res)
+
+
+def _check_defaults(repo, res):
+    """names and limits stay aligned, undeclared limits default to (0, None), malformed declarations are rejected"""
+    import re as _re
+    from ..core.absint import Abs, Obj, Tok, Raised
+    from ..core.algebra import Undecided
     f = repo.func(M.M_BASE, "BaseOdeModel._add_list_attr_with_limits")
-    cfg, df = cfg_of(f), dataflow_of(f)
-    stores = [n for n in cfg.stmt_nodes() if n.kind == "stmt" and isinstance(n.ast, ast.Assign) and any(is_self_attr(t, "_state_lims") for t in n.ast.targets)]
-    if not stores:
-        res.violated("R-DEFAULT", f, "stores-limits", "self._state_lims is never assigned")
-        return
-    st = stores[0]
-    lim = st.ast.value.id if isinstance(st.ast.value, ast.Name) else None
-    n_forms = 0
-    for d in df.reaching(st, lim) if lim else []:
-        if d.kind == "assign" and isinstance(d.value, ast.BinOp):
-            n_forms += 1
-            ok = norm(d.value.left) == "[(0, None)]" and norm(d.value.right).startswith("len(")
-            res.check(ok, "R-DEFAULT", f, "string-form", "string declaration: every state gets (0, None)",
-                      "string declaration gives limits %s" % norm(d.value), node=d.stmt)
-        elif d.kind == "append":
-            n_forms += 1
-            v = d.value
-            gs = [norm(t.ast.test) for t, o in C.if_guards(cfg, d.node) if o is True]
-            if norm(v) == "(0, None)":
-                res.holds("R-DEFAULT", f, "default@%s" % (gs[-1][:40] if gs else ""), "undeclared limits default to (0, None)", node=d.stmt)
-            elif isinstance(v, ast.Subscript) and const_value(v.slice) == 1:
-                # declared limits: guarded by the tuple / length checks
-                chk = [norm(t.ast.test) for t, o in cfg.guards_of(d.node) if isinstance(t.ast, ast.If)]
-                ok = any("len(%s) != 2" % norm(v) in c or "len(%s)!=2" % norm(v) in c.replace(" ", "") for c in chk) and \
-                    any("isinstance(%s, tuple)" % norm(v) in c for c in chk)
-                res.check(ok, "R-DEFAULT", f, "declared", "declared limits are validated as 2-tuples before being stored",
-                          "declared limits %s are stored without the tuple/length validation" % norm(v), node=d.stmt)
-            else:
-                res.violated("R-DEFAULT", f, "default@%s" % norm(v), "a state receives limits `%s` (expected (0, None) or the declared pair)" % norm(v), node=d.stmt)
-    res.floor("limit declaration forms", n_forms, 4)
-    # names and limits stay aligned: every append to the name list has an append to the limit list in the same block
-    names = None
-    for n in cfg.stmt_nodes():
-        pass
-    napps = [d for d in df.defs if d.kind == "append" and d.name != lim]
-    lapps = [d for d in df.defs if d.kind == "append" and d.name == lim]
-    ok = len(napps) == len(lapps) and all(any(cfg.reaches(a.node, b.node) and len(C.if_guards(cfg, a.node)) == len(C.if_guards(cfg, b.node)) for b in lapps) for a in napps)
-    res.check(ok, "R-DEFAULT", f, "aligned", "every declared state appends exactly one limit pair",
-              "state names and limits are appended in different numbers/places: limits shift against states")
+    base = repo.module(M.M_BASE)
+    rx = None
+    for st in base.tree.body:
+        if isinstance(st, ast.Assign) and isinstance(st.targets[0], ast.Name) and st.targets[0].id == "re_split_string" \
+                and isinstance(st.value, ast.Call) and dotted(st.value.func) == "re.compile":
+            rx = _re.compile(const_value(st.value.args[0]))
+    V = Obj("ODEVariable", ID="v", name="v", __str__="v")
+    D = (0, None)
+    ok_cases = [
+        ("string", "a b,c", ["a", "b", "c"], [D, D, D]),
+        ("names", ["a", "b", "c"], ["a", "b", "c"], [D, D, D]),
+        ("all declared", [("a", (1, 5)), ("b", (None, 7)), ("c", (2, None))], ["a", "b", "c"], [(1, 5), (None, 7), (2, None)]),
+        ("declared first", [("a", (1, 5)), "b", "c"], ["a", "b", "c"], [(1, 5), D, D]),
+        ("declared last", ["a", "b", ("c", (1, 5))], ["a", "b", "c"], [D, D, (1, 5)]),
+        ("declared in the middle", ["a", ("b", (None, None)), "c", ("d", (3, 9))], ["a", "b", "c", "d"], [D, (None, None), D, (3, 9)]),
+        ("variable object", [V, ("b", (1, 2)), "c"], [V, "b", "c"], [D, (1, 2), D]),
+        ("single", ["a"], ["a"], [D]),
+        ("single declared", [("a", (4, 8))], ["a"], [(4, 8)]),
+    ]
+    bad_cases = [("triple", [("a", 1, 2)]), ("limits not a tuple", [("a", [0, 1])]), ("limits of length 3", [("a", (0, 1, 2))]),
+                 ("empty name", ["a", " "]), ("unnamed tuple", [("", (0, 1))]), ("number", ["a", 3])]
+    types = {"ODEVariable": lambda v: isinstance(v, Obj) and v.cls == "ODEVariable"}
+    problems, n = [], 0
+    for label, decl, want_names, want_lims in ok_cases:
+        me = Obj("Model")
+        summ = {"Model.__setattr__": lambda me_, n_, v: me_.attrs.__setitem__(n_, v)}
+        if rx is not None:
+            summ["re_split_string.split"] = lambda x: rx.split(x)
+        try:
+            ab = Abs({}, types, summ, me)
+            ab.module = f.module
+            kind, out = ab.run_function(f.node, {f.params[1]: decl, f.params[2]: "names"})
+        except Undecided as e:
+            res.undecided("R-DEFAULT", f, "declarations", "outside the modelled subset: %s" % e)
+            return
+        n += 1
+        names, lims = me.attrs.get("names"), me.attrs.get("_state_lims")
+        if kind != "return":
+            problems.append("%s declaration %r is rejected (%s)" % (label, decl, out))
+        elif list(names or []) != want_names or [tuple(l) if isinstance(l, (list, tuple)) else l for l in (lims or [])] != want_lims:
+            problems.append("%s declaration %r gives states %r with limits %r, expected %r with %r" % (label, decl, names, lims, want_names, want_lims))
+    for label, decl in bad_cases:
+        me = Obj("Model")
+        try:
+            ab = Abs({}, types, {"Model.__setattr__": lambda me_, n_, v: me_.attrs.__setitem__(n_, v)}, me)
+            ab.module = f.module
+            kind, out = ab.run_function(f.node, {f.params[1]: decl, f.params[2]: "names"})
+        except Undecided as e:
+            res.undecided("R-DEFAULT", f, "declarations", "outside the modelled subset: %s" % e)
+            return
+        n += 1
+        if kind != "raise":
+            problems.append("malformed declaration (%s) %r is accepted with limits %r" % (label, decl, me.attrs.get("_state_lims")))
+    res.check(not problems, "R-DEFAULT", f, "declarations", "%d declaration forms: one limit pair per state in the state's own position, (0, None) where none is declared, malformed entries rejected" % n,
+              "; ".join(problems[:2]), node=f.node)
+    res.floor("limit declaration forms", n, 15)
